@@ -5,6 +5,12 @@ import FpVerif.Spec.C01Inst
 
 Statements about *effects*: an equation between `GoM` computations says which user callbacks ran,
 in which order; "the continuation is absent from the right-hand side" means it was not invoked.
+
+Steps / fold functions are ARBITRARY computations (audit finding 14): next to each statement with an effect-free hypothesis
+(`f z a = pure …`, `st s = pure …`) there is the hypothesis-free equation (`…_cons_eq`, `…_append`, `statet_flatMap_eq`,
+`try_recover_eq`) and the general form `…_eff` in which the step returns its outcome after arbitrary effects
+(`= act >>= fun _ => pure …`, `act : GoM X`); the effect-free statements are the instances `act := pure ()`.
+Excluded branches (`e = .nil`): `recover_nil`, `statet_zero_panics_eff`, `C01.try_flatMap_zero`.
 -/
 namespace FpVerif.Spec.C02
 open FpVerif MonadFamily
@@ -31,10 +37,40 @@ theorem either_left_absorbing (l : L) :
       (EitM.ops L).flatMap (pure (.left l)) k = pure (.left l) := by
   intro α β k; simp [EitM.ops, EitM.flatMap]
 
+/-- HYPOTHESIS-FREE (audit finding 14): `statet.FlatMap` for EVERY step (logging, panicking, failing, zero value):
+    the step runs first, once; a Failure comes back with its own error and the step's state, `k` absent. -/
+theorem statet_flatMap_eq (st : StM.StT S A) (k : A → StM.StT S B) (s : S) :
+    (StM.ops S).flatMap st k s = (st s >>= fun x =>
+      match x.1 with
+      | .success a => k a x.2
+      | .failure .nil => throw "ErrNotInit"
+      | .failure e => Pure.pure (.failure e, x.2)) := by
+  simp only [StM.ops, StM.flatMap]
+  congr 1
+  funext ⟨r, ns⟩
+  cases r with
+  | success v => simp
+  | failure e => cases e <;> simp [Try.failedGet]
+
+/-- GENERAL form: the failing step may have effects `act` (a log, other callbacks; any `GoM` computation of any
+    result type `X`) before it fails — they are kept, the continuation is absent. -/
+theorem statet_failure_absorbing_eff {X : Type} (e : Err) (he : e ≠ .nil) (st : StM.StT S A) (s ns : S)
+    (act : GoM X) (h : st s = act >>= fun _ => Pure.pure (.failure e, ns)) (k : A → StM.StT S B) :
+    (StM.ops S).flatMap st k s = act >>= fun _ => Pure.pure (.failure e, ns) := by
+  simp [StM.ops, StM.flatMap, h, he]
+
+/-- the excluded branch (`e = .nil`): a step returning the zero-value Try — after any effects — makes `FlatMap`
+    panic ("Try not initialized correctly", `Failed().Get()` in statet_op.go); `k` is absent here too -/
+theorem statet_zero_panics_eff {X : Type} (st : StM.StT S A) (s ns : S) (act : GoM X)
+    (h : st s = act >>= fun _ => Pure.pure (.failure .nil, ns)) (k : A → StM.StT S B) :
+    (StM.ops S).flatMap st k s = act >>= fun _ => throw "ErrNotInit" := by
+  simp [StM.ops, StM.flatMap, h]
+
+/-- the effect-free instance of `statet_failure_absorbing_eff` -/
 theorem statet_failure_absorbing (e : Err) (he : e ≠ .nil) (st : StM.StT S A) (s ns : S)
     (h : st s = Pure.pure (.failure e, ns)) (k : A → StM.StT S B) :
     (StM.ops S).flatMap st k s = Pure.pure (.failure e, ns) := by
-  simp [StM.ops, StM.flatMap, h, he]
+  simpa using statet_failure_absorbing_eff e he st s ns (Pure.pure ()) (by simpa using h) k
 
 /-- N-ary combinators (MapN/LiftAN/LiftMN/ZipN/FlatMapN, any N), generically: when the operand at
     position `pre.length` is absorbing, the result is what the operands before it leave followed by
@@ -100,24 +136,117 @@ theorem try_foldM_append (xs ys : List A) (z : B) (f : B → A → GoM (Try B)) 
     | success s => simp [ih]
     | failure e => simp
 
-/-- The step on `a` fails: the elements after it are never visited (`ys` and their steps are absent). -/
-theorem try_foldM_stops (xs ys : List A) (a : A) (z s : B) (e : Err) (f : B → A → GoM (Try B))
-    (hxs : TryM.foldM xs z f = pure (.success s)) (ha : f s a = pure (.failure e)) :
-    TryM.foldM (xs ++ a :: ys) z f = pure (.failure e) := by
+/-- HYPOTHESIS-FREE (audit finding 14) — the loops, for EVERY step function (it may log, panic, return anything):
+    the step on the head runs first, once, with all its effects; on a failure / `None` / `Left` the loop returns that
+    very value and the tail `xs` — hence every later step — is ABSENT from that branch. -/
+theorem try_foldM_cons_eq (x : A) (xs : List A) (z : B) (f : B → A → GoM (Try B)) :
+    TryM.foldM (x :: xs) z f = (f z x >>= fun t =>
+      match t with
+      | .success s => TryM.foldM xs s f
+      | .failure e => pure (.failure e)) :=
+  Spec.C01.try_foldM_cons_eq x xs z f
+
+theorem option_foldM_cons_eq (x : A) (xs : List A) (z : B) (f : B → A → GoM (Option B)) :
+    OptM.foldM (x :: xs) z f = (f z x >>= fun t =>
+      match t with
+      | some s => OptM.foldM xs s f
+      | none => pure none) := by
+  simp only [OptM.foldM]
+  congr 1
+
+theorem either_foldM_cons_eq (x : A) (xs : List A) (z : B) (f : B → A → GoM (Either L B)) :
+    EitM.foldM (x :: xs) z f = (f z x >>= fun t =>
+      match t with
+      | .right s => EitM.foldM xs s f
+      | .left l => pure (.left l)) := by
+  simp only [EitM.foldM]
+  congr 1
+  funext t
+  cases t <;> rfl
+
+/-- GENERAL form: the steps before `a` (together: `act1`) and the failing step on `a` (`act2`) may log / run other
+    callbacks before they return; all those effects happen, in that order, exactly once — then the failure; the
+    elements after `a` are never visited.  (Any `e`, also `.nil`: the loop does not inspect the error.) -/
+theorem try_foldM_stops_eff {X Y : Type} (xs ys : List A) (a : A) (z s : B) (e : Err) (f : B → A → GoM (Try B))
+    (act1 : GoM X) (act2 : GoM Y)
+    (hxs : TryM.foldM xs z f = act1 >>= fun _ => pure (.success s))
+    (ha : f s a = act2 >>= fun _ => pure (.failure e)) :
+    TryM.foldM (xs ++ a :: ys) z f = act1 >>= fun _ => act2 >>= fun _ => pure (.failure e) := by
   rw [try_foldM_append]
   simp [hxs, TryM.foldM, ha]
 
+/-- The step on `a` fails: the elements after it are never visited (`ys` and their steps are absent).
+    (The effect-free instance of `try_foldM_stops_eff`.) -/
+theorem try_foldM_stops (xs ys : List A) (a : A) (z s : B) (e : Err) (f : B → A → GoM (Try B))
+    (hxs : TryM.foldM xs z f = pure (.success s)) (ha : f s a = pure (.failure e)) :
+    TryM.foldM (xs ++ a :: ys) z f = pure (.failure e) := by
+  simpa using try_foldM_stops_eff xs ys a z s e f (pure ()) (pure ()) (by simpa using hxs) (by simpa using ha)
+
+theorem option_foldM_stops_eff {X : Type} (ys : List A) (a : A) (z : B) (f : B → A → GoM (Option B))
+    (act : GoM X) (ha : f z a = act >>= fun _ => pure none) :
+    OptM.foldM (a :: ys) z f = act >>= fun _ => pure none := by
+  simp [OptM.foldM, ha]
+
 theorem option_foldM_stops (ys : List A) (a : A) (z : B) (f : B → A → GoM (Option B))
     (ha : f z a = pure none) : OptM.foldM (a :: ys) z f = pure none := by
-  simp [OptM.foldM, ha]
+  simpa using option_foldM_stops_eff ys a z f (pure ()) (by simpa using ha)
+
+theorem either_foldM_stops_eff {X : Type} (ys : List A) (a : A) (z : B) (l : L) (f : B → A → GoM (Either L B))
+    (act : GoM X) (ha : f z a = act >>= fun _ => pure (.left l)) :
+    EitM.foldM (a :: ys) z f = act >>= fun _ => pure (.left l) := by
+  simp [EitM.foldM, ha]
 
 theorem either_foldM_stops (ys : List A) (a : A) (z : B) (l : L) (f : B → A → GoM (Either L B))
     (ha : f z a = pure (.left l)) : EitM.foldM (a :: ys) z f = pure (.left l) := by
-  simp [EitM.foldM, ha]
+  simpa using either_foldM_stops_eff ys a z l f (pure ()) (by simpa using ha)
+
+/-- after a prefix: Option / Either loops over `xs ++ a :: ys`, general form as for Try -/
+theorem option_foldM_append (xs ys : List A) (z : B) (f : B → A → GoM (Option B)) :
+    OptM.foldM (xs ++ ys) z f = (do
+      match ← OptM.foldM xs z f with
+      | some s => OptM.foldM ys s f
+      | none => pure none) := by
+  induction xs generalizing z with
+  | nil => simp [OptM.foldM]
+  | cons x xs ih =>
+    simp only [List.cons_append, OptM.foldM, bind_assoc]
+    congr 1; funext t
+    cases t with
+    | some s => simp [ih]
+    | none => simp
+
+theorem either_foldM_append (xs ys : List A) (z : B) (f : B → A → GoM (Either L B)) :
+    EitM.foldM (xs ++ ys) z f = (do
+      match ← EitM.foldM xs z f with
+      | .right s => EitM.foldM ys s f
+      | .left l => pure (.left l)) := by
+  induction xs generalizing z with
+  | nil => simp [EitM.foldM]
+  | cons x xs ih =>
+    simp only [List.cons_append, EitM.foldM, bind_assoc]
+    congr 1; funext t
+    cases t with
+    | right s => simp [ih]
+    | left l => simp
 
 -- Recover* / OrElse* / Or* ------------------------------------------------------------------------------
 
-/-- Successes pass through untouched; no handler runs. -/
+/-- Successes pass through untouched; no handler runs — `OrElse` with a FRESH default `d` (audit finding 20: the
+    statement below used `v` itself as the default, so a mutant `OrElse` returning its argument would satisfy it). -/
+theorem try_success_untouched_fresh (v d : A) (f : Err → GoM A) (fw : Err → GoM (Try A)) (p : Err → GoM Bool)
+    (g : Unit → GoM A) (gt : Unit → GoM (Try A)) (t : Try A) :
+    TryM.recover (.success v) f = pure (.success v) ∧
+    TryM.recoverWith (.success v) fw = pure (.success v) ∧
+    TryM.recoverCase (.success v) p f = pure (.success v) ∧
+    TryM.recoverCaseWith (.success v) p fw = pure (.success v) ∧
+    TryM.or (.success v) gt = pure (.success v) ∧
+    TryM.orTry (.success v) t = .success v ∧
+    TryM.orElse (.success v) d = v ∧
+    TryM.orElseGet (.success v) g = pure v := by
+  simp [TryM.recover, TryM.recoverWith, TryM.recoverCase, TryM.recoverCaseWith, TryM.or, TryM.orTry,
+    TryM.orElse, TryM.orElseGet]
+
+/-- Successes pass through untouched; no handler runs.  (`try_success_untouched_fresh` at `d := v`.) -/
 theorem try_success_untouched (v : A) (f : Err → GoM A) (fw : Err → GoM (Try A)) (p : Err → GoM Bool)
     (g : Unit → GoM A) (gt : Unit → GoM (Try A)) (t : Try A) :
     TryM.recover (.success v) f = pure (.success v) ∧
@@ -127,9 +256,8 @@ theorem try_success_untouched (v : A) (f : Err → GoM A) (fw : Err → GoM (Try
     TryM.or (.success v) gt = pure (.success v) ∧
     TryM.orTry (.success v) t = .success v ∧
     TryM.orElse (.success v) v = v ∧
-    TryM.orElseGet (.success v) g = pure v := by
-  simp [TryM.recover, TryM.recoverWith, TryM.recoverCase, TryM.recoverCaseWith, TryM.or, TryM.orTry,
-    TryM.orElse, TryM.orElseGet]
+    TryM.orElseGet (.success v) g = pure v :=
+  try_success_untouched_fresh v v f fw p g gt t
 
 /-- On failure the handler runs exactly once, with the failure's own error. -/
 theorem try_failure_handled (e : Err) (he : e ≠ .nil) (f : Err → GoM A) (fw : Err → GoM (Try A))
@@ -146,6 +274,83 @@ theorem try_recoverCase_failure (e : Err) (he : e ≠ .nil) (p : Err → GoM Boo
     TryM.recoverCase (.failure e) p f
       = (do if ← p e then (do let a ← f e; pure (.success a)) else pure (.failure e)) := by
   simp [TryM.recoverCase, he]
+
+theorem try_recoverCaseWith_failure (e : Err) (he : e ≠ .nil) (p : Err → GoM Bool) (fw : Err → GoM (Try A)) :
+    TryM.recoverCaseWith (.failure e) p fw
+      = (do if ← p e then fw e else pure (.failure e)) := by
+  simp [TryM.recoverCaseWith, he]
+
+/-- THE EXCLUDED BRANCH of `try_failure_handled` / `try_recoverCase_failure` (`e = .nil`; audit finding 20; the
+    `recover_nil` DESIGN.md cites): on the zero-value Try (`fp.Try[T]{}`, `try.Failure(nil)`) every Recover* /
+    RecoverCase* method PANICS with "Try not initialized correctly" and runs neither the handler nor `isDefinedAt`:
+    the code is `f(r.Failed().Get())` (try.go:126,135,147,158), `Failed()` on `err == nil` is
+    `Failure(Error(406, "Try not initialized correctly"))` (try.go:85-87) and `Get` on a Failure panics (try.go:43). -/
+theorem recover_nil (f : Err → GoM A) (fw : Err → GoM (Try A)) (p : Err → GoM Bool) :
+    TryM.recover (.failure .nil) f = throw "ErrNotInit" ∧
+    TryM.recoverWith (.failure .nil) fw = throw "ErrNotInit" ∧
+    TryM.recoverCase (.failure .nil) p f = throw "ErrNotInit" ∧
+    TryM.recoverCaseWith (.failure .nil) p fw = throw "ErrNotInit" := by
+  simp [TryM.recover, TryM.recoverWith, TryM.recoverCase, TryM.recoverCaseWith]
+
+/-- … whereas the Or* / OrElse* methods only test `IsSuccess()` (try.go:90-120) and never look at the error: on
+    EVERY Failure, the zero value included (no `e ≠ .nil`), the alternative is taken, exactly once. -/
+theorem try_failure_or_any (e : Err) (g : Unit → GoM A) (gt : Unit → GoM (Try A)) (t : Try A) (d : A) :
+    TryM.or (.failure e) gt = gt () ∧
+    TryM.orTry (.failure e) t = t ∧
+    TryM.orElse (.failure e) d = d ∧
+    TryM.orElseGet (.failure e) g = g () := by
+  simp [TryM.or, TryM.orTry, TryM.orElse, TryM.orElseGet]
+
+/-- All four Recover* on EVERY Try value at once (no hypothesis): the three cases side by side. -/
+theorem try_recover_eq (r : Try A) (f : Err → GoM A) (fw : Err → GoM (Try A)) :
+    TryM.recover r f = (match r with
+      | .success v => pure (.success v)
+      | .failure .nil => throw "ErrNotInit"
+      | .failure e => do let a ← f e; pure (.success a)) ∧
+    TryM.recoverWith r fw = (match r with
+      | .success v => pure (.success v)
+      | .failure .nil => throw "ErrNotInit"
+      | .failure e => fw e) := by
+  cases r with
+  | success v => simp [TryM.recover, TryM.recoverWith]
+  | failure e => cases e <;> simp [TryM.recover, TryM.recoverWith, Try.failedGet]
+
+-- Either: Recover / OrElse / OrElseGet (audit finding 20) ---------------------------------------------------
+
+/-- A `Right` passes through `Recover` / `OrElse` / `OrElseGet` untouched: the supplier is ABSENT (never called),
+    the default `d` — any value, unrelated to `v` — is ignored.  (either.go:73 `right.Recover` returns `r`;
+    either_op.go:69-81.) -/
+theorem either_right_untouched (v d : A) (g : Unit → GoM A) :
+    EitM.recover (.right v : Either L A) g = pure (.right v) ∧
+    EitM.orElse (.right v : Either L A) d = v ∧
+    EitM.orElseGet (.right v : Either L A) g = pure v := by
+  simp [EitM.recover, EitM.orElse, EitM.orElseGet]
+
+/-- On a `Left` the supplier runs exactly once (all its effects, a panic propagates) and its result is the value:
+    `Recover` wraps it in `Right` (either.go:47), `OrElse` returns the default, `OrElseGet` the supplier's value.
+    The left value `l` is dropped by all three (the supplier takes no argument). -/
+theorem either_left_handled (l : L) (d : A) (g : Unit → GoM A) :
+    EitM.recover (.left l : Either L A) g = (do let r ← g (); pure (.right r)) ∧
+    EitM.orElse (.left l : Either L A) d = d ∧
+    EitM.orElseGet (.left l : Either L A) g = g () := by
+  simp [EitM.recover, EitM.orElse, EitM.orElseGet]
+
+/-- consequences (hypothesis-free, every supplier): whenever `Recover` returns, it returns a `Right`; and `Recover`
+    after `Recover` does not call the second supplier -/
+theorem either_recover_isRight (e : Either L A) (g : Unit → GoM A) :
+    (EitM.recover e g >>= fun e' => pure (match e' with | .right _ => true | .left _ => false))
+      = (EitM.recover e g >>= fun _ => pure true) := by
+  cases e <;> simp [EitM.recover]
+
+theorem either_recover_recover (e : Either L A) (g g' : Unit → GoM A) :
+    (EitM.recover e g >>= fun e' => EitM.recover e' g') = EitM.recover e g := by
+  cases e <;> simp [EitM.recover]
+
+/-- `OrElseGet` is `Recover` followed by `Get` (which then cannot panic); `OrElse d` is `OrElseGet` of a constant -/
+theorem either_orElseGet_eq (e : Either L A) (g : Unit → GoM A) (d : A) :
+    EitM.orElseGet e g = (EitM.recover e g >>= EitM.get) ∧
+    EitM.orElseGet e (fun _ => pure d) = pure (EitM.orElse e d) := by
+  cases e <;> simp [EitM.recover, EitM.orElse, EitM.orElseGet, EitM.get]
 
 theorem option_some_untouched (v : A) (g : Unit → GoM A) (go : Unit → GoM (Option A)) (o : Option A) :
     OptM.recover (some v) g = pure (some v) ∧ OptM.or (some v) go = pure (some v) ∧
@@ -194,5 +399,31 @@ theorem callUnit_panic (p : PanicVal) : TryM.callUnit (fun _ => (throw p : GoM E
   simp [TryM.callUnit, tryCatch, tryCatchThe, MonadExceptOf.tryCatch, ExceptT.tryCatch, ExceptT.mk, throw,
     throwThe, MonadExceptOf.throw, ExceptT.bind, ExceptT.bindCont, bind, pure, ExceptT.pure]
   rfl
+
+-- non-vacuity of the GENERAL (`_eff`) forms ----------------------------------------------------------------------
+def logTag : Nat → String
+  | 1 => "visit1"
+  | 2 => "visit2"
+  | _ => "visitN"
+/-- a fold step that LOGS every element and fails on 2 -/
+def logStep : Nat → Nat → GoM (Try Nat) := fun acc x => do
+  emit (logTag x)
+  if x = 2 then pure (.failure (.code 7)) else pure (.success (acc + x))
+
+example : TryM.foldM [1] 0 logStep = (emit "visit1" >>= fun _ => pure (.success 1)) := by
+  simp [TryM.foldM, logStep, logTag]
+example : logStep 1 2 = (emit "visit2" >>= fun _ => pure (.failure (.code 7))) := by simp [logStep, logTag]
+/-- the effect-free hypothesis of `try_foldM_stops` is NOT met by this step … -/
+example : logStep 1 2 ≠ pure (.failure (.code 7)) := by
+  intro h
+  have := congrArg (fun m => (GoM.exec m).2) h
+  revert this
+  decide
+/-- … the general form applies: 3 and 4 are never visited, "visit1", "visit2" are logged once, in order -/
+example : TryM.foldM ([1] ++ 2 :: [3, 4]) 0 logStep
+    = (emit "visit1" >>= fun _ => emit "visit2" >>= fun _ => pure (.failure (.code 7))) :=
+  try_foldM_stops_eff [1] [3, 4] 2 0 1 (.code 7) logStep (emit "visit1") (emit "visit2")
+    (by simp [TryM.foldM, logStep, logTag]) (by simp [logStep, logTag])
+example : (GoM.exec (TryM.foldM [1, 2, 3, 4] 0 logStep)).2 = ["visit1", "visit2"] := by decide
 
 end FpVerif.Spec.C02
